@@ -99,3 +99,64 @@ def solveRidge {p o : Nat} (g : Gram R p o) (lam : R) : Option (Mat R p o) :=
     | none => none
     | some W => if certify g lam W then some W else none
 end
+
+/-! ### The offline life of a Ridge node (`node.py: partial_fit / fit`, `ridge.py: initialize_buffers / backward`) -/
+section
+variable {R : Type} [Add R] [Mul R] [Sub R] [Zero R] [One R] [Div R] [ZeroTest R] [Inhabited R]
+
+/-- A Ridge node between fits: the hyper-parameter `ridge` (assignable at any time), the two buffers (absent outside a
+    training session) and the learned matrix (bias row included). -/
+structure RidgeNode (R : Type) (p o : Nat) where
+  ridge : R
+  buf : Option (Gram R p o)
+  W : Option (Mat R p o)
+
+inductive RidgeOp (R : Type) (p o : Nat)
+  | partialFit (warmup : Nat) (seqs : List (List (Vec R p × Vec R o)))
+  | setRidge (lam : R)
+  | fit                                                                     -- `fit()` finishing earlier partial fits
+  | fitData (warmup : Nat) (seqs : List (List (Vec R p × Vec R o)))         -- `fit(X, Y)`
+
+variable {p o : Nat}
+
+/-- `partial_fit`: zero buffers are created when there are none (`initialize_buffers`), then every sequence is accumulated -/
+def RidgeNode.accum (n : RidgeNode R p o) (w : Nat) (seqs : List (List (Vec R p × Vec R o))) : RidgeNode R p o :=
+  { n with buf := some (accumulate w (n.buf.getD (Gram.zero p o)) seqs) }
+
+/-- `backward` + `clean_buffers`: the system is solved with the value `ridge` has NOW, and the buffers are dropped -/
+def RidgeNode.solve (n : RidgeNode R p o) : RidgeNode R p o :=
+  match n.buf with
+  | none => n
+  | some g => { n with W := solveRidge g n.ridge, buf := none }
+
+def ridgeStep (n : RidgeNode R p o) : RidgeOp R p o → RidgeNode R p o
+  | .partialFit w s => n.accum w s
+  | .setRidge lam => { n with ridge := lam }
+  | .fit => n.solve
+  | .fitData w s => (n.accum w s).solve
+
+def ridgeRun (n : RidgeNode R p o) (ops : List (RidgeOp R p o)) : RidgeNode R p o := ops.foldl ridgeStep n
+
+/-- preparation operations: everything but a solve -/
+def RidgeOp.isPrep : RidgeOp R p o → Bool
+  | .partialFit _ _ => true
+  | .setRidge _ => true
+  | _ => false
+
+def RidgeOp.isData : RidgeOp R p o → Bool
+  | .partialFit _ _ => true
+  | _ => false
+
+/-- the buffers after the partial fits of a list of preparation operations -/
+def prepGram (g : Gram R p o) : List (RidgeOp R p o) → Gram R p o
+  | [] => g
+  | .partialFit w s :: ops => prepGram (accumulate w g s) ops
+  | _ :: ops => prepGram g ops
+
+/-- the value of `ridge` after a list of operations -/
+def lastRidge (r : R) : List (RidgeOp R p o) → R
+  | [] => r
+  | .setRidge lam :: ops => lastRidge lam ops
+  | _ :: ops => lastRidge r ops
+
+end
